@@ -157,11 +157,17 @@ func suiteC06Render(cfg Config, res *Result) {
 		kinds := ""
 		for j := range frs {
 			frs[j] = genFrag(rng)
-			// a fragment carrying a '-' marker may not touch literal text (it would rightly trim it)
-			for frs[j].kind == "dashvar" && j > 0 && (frs[j-1].kind == "text" || frs[j-1].kind == "verbatim") {
-				frs[j] = genFrag(rng)
+			// a fragment carrying a '-' marker may not touch literal text (it would rightly trim it);
+			// {# #} comments leave no token, so what lies before one still touches what follows
+			prev := ""
+			for k := j - 1; k >= 0; k-- {
+				if frs[k].kind != "linecomment" {
+					prev = frs[k].kind
+					break
+				}
 			}
-			for j > 0 && frs[j-1].kind == "dashvar" && (frs[j].kind == "text" || frs[j].kind == "verbatim") {
+			isLit := func(k string) bool { return k == "text" || k == "verbatim" }
+			for (frs[j].kind == "dashvar" && isLit(prev)) || (prev == "dashvar" && isLit(frs[j].kind)) {
 				frs[j] = genFrag(rng)
 			}
 			sb.WriteString(frs[j].src)
